@@ -2,6 +2,7 @@ import Arc.Model.C19
 import Arc.Proofs.C19.Msgpack
 import Arc.Proofs.C19.Json
 import Arc.Proofs.C19.Rows
+import Arc.Proofs.C19.Blob
 /-!
 C19 — Query responses faithfully encode DuckDB's results: the byte-level part that is PROVED.
 
@@ -10,14 +11,12 @@ in Arc/Model/C19.lean with every constant / table taken from `Arc.Generated.C19`
 each run).  The specs they are proved against are the RFC 8259 string decoder `jsonDecode`, RFC 3629 `ValidUTF8`
 and the MessagePack-spec token decoder `decTok` / `decTime`.
 
-FULL statement for JSON strings (false of the current code — finding `json-malformed:binary`):
-
-    theorem C19_json_string_full (s : Bytes) (hs : AllBytes s) : jsonDecode (writeJSONString s) = some s
-
-`writeJSONString` passes bytes ≥ 0x80 through verbatim; for a byte string that is not valid UTF-8 (reachable:
-a DuckDB BLOB goes through `writeJSONString(string(c.Value(row)))`) the output is not a JSON text at all
-(`C19_json_string_witness`).  What IS emitted is characterised exactly by `C19_json_string_raw`; the property
-clause is proved under the carve-out `ValidUTF8 s` (`C19_json_string` = `C19_json_string_partial`).
+JSON strings.  `writeJSONString` itself passes bytes ≥ 0x80 through verbatim, so as a function of ARBITRARY bytes
+it is only correct on valid UTF-8 (`C19_json_string`; `C19_json_string_raw` states what it emits otherwise and
+`C19_json_string_witness` keeps the counterexample about the raw writer).  Until /repo 5813498 a BLOB cell reached it
+unconverted (former finding `json-malformed:binary`).  Now every call site of the cell writer feeds it valid UTF-8:
+VARCHAR cells (DuckDB guarantees UTF-8), BLOB cells through `blobText` (proved ASCII ⇒ valid UTF-8: `C19_json_blob`,
+and DuckDB's text form gives the bytes back: `C19_blob_text`), Decimal128 through `decimalText` (digits, `-`, `.`).
 -/
 namespace Arc.C19
 open Arc.Generated.C19
@@ -83,6 +82,43 @@ theorem C19_json_string_witness :
   intro h
   cases h with
   | one _ _ h _ => omega
+
+/-! ## BLOB cells (since /repo 5813498) and Decimal128 cells (since 6bd10ec) -/
+
+/-- regenerated parameters of `blobText`: printable ASCII 32..126 except `\ ' "` is literal, the escape is `\x` +
+two digits of an alphabet that `hexVal` reads back (so editing the table re-checks the theorems below) -/
+theorem C19_blob_table :
+    blobPrintLo = 32 ∧ blobPrintHi = 126 ∧ blobExcluded = [92, 39, 34] ∧ blobEscPrefix = [92, 120] ∧
+    (∀ i : Fin 16, hexVal (blobHexDigits.getD i.val 0) = some i.val) := by
+  refine ⟨by decide, by decide, by decide, by decide, by decide⟩
+
+/-- **C19_json_blob**: for EVERY byte string (any BLOB) the JSON cell `writeJSONString (blobText s)` is read back by
+the strict RFC 8259 / RFC 3629 decoder as `blobText s` — the output of `blobText` is ASCII, hence valid UTF-8, so the
+carve-out of `C19_json_string` is met at this call site for all inputs. -/
+theorem C19_json_blob (s : Bytes) (hs : AllBytes s) :
+    (∀ b ∈ blobText s, b < 128) ∧ ValidUTF8 (blobText s) ∧
+    jsonDecode (writeJSONString (blobText s)) = some (blobText s) :=
+  ⟨blobText_ascii s hs, validUTF8_of_ascii _ (blobText_ascii s hs),
+   C19_json_string _ (validUTF8_of_ascii _ (blobText_ascii s hs))⟩
+
+/-- **C19_blob_text**: DuckDB's BLOB text form is lossless: decoding the JSON string and then the `\xHH` form gives
+exactly the BLOB's bytes (the documented conversion for a type without a native JSON encoding). -/
+theorem C19_blob_text (s : Bytes) (hs : AllBytes s) :
+    (jsonDecode (writeJSONString (blobText s))).bind blobDecode = some s := by
+  rw [(C19_json_blob s hs).2.2]
+  exact blobDecode_blobText s hs
+
+example : blobText [0xFF, 34, 65] = [92, 120, 70, 70, 92, 120, 50, 50, 65] ∧
+    blobDecode [92, 120, 70, 70, 92, 120, 50, 50, 65] = some [0xFF, 34, 65] := by decide
+
+/-- `decimalText` with scale 0 (HUGEINT, SUM of integers) is exactly the integer's decimal digits -/
+theorem C19_decimal_text_scale0 (v : Int) : decimalText v 0 = writeInt v := by
+  unfold decimalText writeInt
+  by_cases h : v < 0
+  · have : v.natAbs = (-v).toNat := by omega
+    simp [h, this]
+  · have : v.natAbs = v.toNat := by omega
+    simp [h, this]
 
 /-! ## JSON scalar cells -/
 
